@@ -25,6 +25,7 @@ from vf.dcsym import shadow, quiet, sym_writer
 from vf.symnp import SArr, SymNP, Tok
 from vf.symx import (Engine, SBool, SFloat, SInt, SReal, NotModelled, tobool,
                      toint, toreal, smax, smin, srange)
+from vf.symx import Infeasible as symx_Infeasible
 
 PID = "C13"
 CK = "dclab.rtdc_dataset.check"
@@ -227,13 +228,18 @@ def corrupt(eng, f, g, c, tag):
     elif kind == "index":
         v = eng.int(tag + "_index")
         i = c[1]
+        if i >= len(g.index):
+            raise symx_Infeasible()     # the index was shortened before
         ev["index"].data = SArr(list(g.index), int)
         ev["index"].data[i] = v
         g.index = list(g.index)
         g.index[i] = v
     elif kind == "unknown":
+        from dclab import definitions as dfn
         ev.create_dataset(c[1], data=np.arange(float(N)), chunks=(N,))
         g.unknown.append(c[1])
+        if dfn.feature_exists(c[1]):
+            g.len[c[1]] = N      # a known (generic) feature: size is checked
     elif kind == "missing":
         del f.attrs["%s:%s" % (c[1], c[2])]
         g.missing.add((c[1], c[2]))
@@ -772,11 +778,15 @@ def _real_corrupt(path, g, c, tag, vals):
             h.attrs["imaging:" + c[1]] = g.roi[c[1]]
         elif kind == "index":
             v = iv(tag + "_index")
-            ev["index"][c[1]] = v
-            g.index[c[1]] = v
+            if c[1] < len(g.index):
+                ev["index"][c[1]] = v
+                g.index[c[1]] = v
         elif kind == "unknown":
+            from dclab import definitions as dfn
             ev.create_dataset(c[1], data=np.arange(float(N)))
             g.unknown.append(c[1])
+            if dfn.feature_exists(c[1]):
+                g.len[c[1]] = N
         elif kind == "missing":
             del h.attrs["%s:%s" % (c[1], c[2])]
             g.missing.add((c[1], c[2]))
